@@ -36,7 +36,11 @@ CFG = dict(
           "duplicates, absent removals, 8 kinds of invalid argument; 30% of the histories overwrite the argument slices (cidr.IP, cidr.Mask, probe) after "
           "every call; Contains(nil); probes = first/last address and outside neighbours "
           "of live and removed ranges in 4- and 16-byte form plus non-IPv4 slices; non-trivial = distinct case lines; "
-          "every observation of every line is judged (see driver.observations / driver.probes)"),
+          "every observation of every line is judged (see driver.observations / driver.probes). PLUS one long single-threaded churn history per run "
+          "(quick ~9,300 operations: 4,600 distinct adds, 4,300 removals of present ranges in random order, every removed range probed right after "
+          "its removal and again at the end; thorough ~57,000 operations) which is judged on the Go side by the specification only - a plain map of live "
+          "(network, prefix length) keys, Contains(ip) <=> exists n, live[(ip & mask n, n)] - as VIOL lines, NOT replayed in the extracted model "
+          "(list-based sets make that quadratic)"),
     trusted_base=[HARNESS_TB, EXTRACT_TB,
                   "Lib/NetIP.v is my reading of net.IP.To4, net.IPMask.Size and binary.BigEndian.Uint32 (Go standard library); "
                   "it is exercised against the real functions through every Add/Remove/Contains of the harness"],
